@@ -301,7 +301,7 @@ func loopExitBlock(hdr *ssa.BasicBlock) *ssa.BasicBlock {
 		return rot.done
 	}
 	if len(hdr.Succs) == 2 {
-		return hdr.Succs[1]
+		return hdr.Succs[1-loopBodySucc(hdr)]
 	}
 	return nil
 }
@@ -313,9 +313,41 @@ func (n *Normer) LoopCond(hdr *ssa.BasicBlock) *Cond {
 		return w
 	}
 	if len(hdr.Succs) == 2 {
-		return n.EdgeCond(hdr, hdr.Succs[0])
+		return n.EdgeCond(hdr, hdr.Succs[loopBodySucc(hdr)])
 	}
 	return cTrue
+}
+
+// loopBodySucc: which successor of a top-tested loop header stays in the loop: normally the first
+// (`for cond {`), the second when the header test is written as `if !cond { break }`.
+func loopBodySucc(hdr *ssa.BasicBlock) int {
+	if len(hdr.Succs) != 2 {
+		return 0
+	}
+	back := func(from *ssa.BasicBlock) bool {
+		seen := map[*ssa.BasicBlock]bool{}
+		var walk func(b *ssa.BasicBlock) bool
+		walk = func(b *ssa.BasicBlock) bool {
+			if b == hdr {
+				return true
+			}
+			if seen[b] || !hdr.Dominates(b) {
+				return false
+			}
+			seen[b] = true
+			for _, s := range b.Succs {
+				if walk(s) {
+					return true
+				}
+			}
+			return false
+		}
+		return walk(from)
+	}
+	if !back(hdr.Succs[0]) && back(hdr.Succs[1]) {
+		return 1
+	}
+	return 0
 }
 
 // inLoopBody: blk belongs to the body of the loop headed by hdr (for a bottom-tested loop the header
@@ -324,7 +356,7 @@ func inLoopBody(hdr, blk *ssa.BasicBlock) bool {
 	if _, ok := rotatedLoop(hdr); ok {
 		return hdr.Dominates(blk)
 	}
-	return len(hdr.Succs) > 0 && hdr.Succs[0].Dominates(blk)
+	return len(hdr.Succs) > 0 && hdr.Succs[loopBodySucc(hdr)].Dominates(blk)
 }
 
 // BodyStart: the block from which conditions inside the body are taken: the first body block of a
@@ -456,4 +488,14 @@ func canonAccess(s string) string {
 		}
 		s = s[:i] + s[i+4:comma] + "[" + s[comma+1:end] + "]" + s[end+1:]
 	}
+}
+
+// isLoopHeader: some predecessor of b is dominated by b (a back edge enters it).
+func isLoopHeader(b *ssa.BasicBlock) bool {
+	for _, p := range b.Preds {
+		if b.Dominates(p) {
+			return true
+		}
+	}
+	return false
 }
